@@ -7,6 +7,8 @@ import (
 	"context"
 	"net"
 	"time"
+
+	"github.com/tokenized/pkg/bitcoin"
 )
 
 // VerifSetRequestTimeout changes the tx request timeout of a running manager, so that a harness
@@ -62,4 +64,15 @@ func (m *NodeManager) VerifSetNextNodeOffset(offset int) {
 	defer m.Unlock()
 
 	m.nextNodeOffset = offset
+}
+
+// VerifFinishDownloader runs the completion callback of a download thread of the given block with
+// the given result, as happens when such a thread ends; the callback runs in a thread of its own
+// and can therefore reach the manager arbitrarily late (e.g. after the next request was started).
+func (m *BlockManager) VerifFinishDownloader(ctx context.Context, hash bitcoin.Hash32, err error) {
+	df := &downloadFinisher{
+		manager:    m,
+		downloader: NewBlockDownloader(nil, nil, hash, 0),
+	}
+	df.onDownloaderCompleted(ctx, err)
 }
